@@ -175,10 +175,14 @@ class SimProc:
         self.opcount = 0
         self.mid_write = False
         self.rstate = None            # state of the `random` module as this process sees it
+        self.fileless = False         # the defining module has no __file__ (interactive session, exec'd code): bisturi then
+                                      # falls back to ./__main__.py, i.e. a cache in the current directory keyed by class name only
 
 
 def _is_owned(name):
-    return name == "bisturi" or name.startswith("bisturi.") or name.startswith("defs")
+    """module names that belong to one simulated process: bisturi, the defining modules, the generated modules
+    (defs_<Class>, and __main___<Class> for defining modules without a file)"""
+    return name == "bisturi" or name.startswith("bisturi.") or name.startswith("defs") or name.startswith("__main___")
 
 
 class World:
@@ -327,13 +331,14 @@ class World:
         mod = proc.defs_mods.get(modname)
         if mod is None:
             mod = types.ModuleType(modname)
-            mod.__file__ = path
+            if not proc.fileless:
+                mod.__file__ = path
             proc.defs_mods[modname] = mod
         sys.modules[modname] = mod
         before = len(proc.classes)
         mod.__dict__.pop("CLASSES", None)
         try:
-            exec(compile(src, path, "exec", dont_inherit=True), mod.__dict__)
+            exec(compile(src, path if not proc.fileless else "<input>", "exec", dont_inherit=True), mod.__dict__)
         except SimCrash:
             raise
         except BaseException as e:
@@ -700,7 +705,7 @@ class CacheSeqEngine(CacheEngineBase):
                    "code identity ignores file names and line numbers (a module differing only in comments is the same code)",
                    "the defining modules themselves (defs.py) are inputs, not part of the cache protocol"]
     expected_probes = ["cache-hit", "cache-rewrite", "pyc-accepted", "pyc-rejected", "orphan-pyc-at-load", "same-process-redefine",
-                       "name-collision-file", "janitor-restore", "janitor-mixed-restore", "bytecode-on", "bytecode-off"]
+                       "name-collision-file", "janitor-restore", "janitor-mixed-restore", "bytecode-on", "bytecode-off", "fileless-module"]
 
     def execute(self, scenario, ch):
         out = Outcome()
@@ -738,13 +743,16 @@ class CacheSeqEngine(CacheEngineBase):
                     st["probe:same-process-redefine"] += 1
                 else:
                     proc = world.spawn("p%d" % len(world.procs), bytecode=ch.chance("bytecode-on", 1, 2))
+                    if ch.chance("fileless-module", 1, 8):
+                        proc.fileless = True
+                        st["probe:fileless-module"] += 1
                     st["probe:bytecode-on" if not proc.dont_write_bytecode else "probe:bytecode-off"] += 1
                     live.append(proc)
                     if len(live) > 3:
                         live.pop(0)
                 had_cache_before_last = bool(_pkts_listing(root))
                 self._probe_state(world, st, root)
-                ev("%s DEFINE %s (bytecode %s)" % (proc.label, which_mod, "off" if proc.dont_write_bytecode else "on"))
+                ev("%s DEFINE %s (bytecode %s%s)" % (proc.label, which_mod, "off" if proc.dont_write_bytecode else "on", ", module without __file__" if proc.fileless else ""))
                 mark = len(out.events)
                 world.run_alone(proc, lambda p: world.define_run(p, which_mod))
                 self._define_probes(out.events[mark:], st)
@@ -923,7 +931,7 @@ class CacheSeqEngine(CacheEngineBase):
 class CacheConcEngine(CacheEngineBase):
     prop = "C16"
     name = "cachesim-conc"
-    tiers = {"quick": 3000, "thorough": 400000}
+    tiers = {"quick": 6000, "thorough": 400000}
     chunks = {"quick": 20, "thorough": 250}
     rule = ("each case is one simulated run: a drawn prior cache state (empty, or left by a fault-free process that defined another "
             "declaration list, with or without bytecode), then 2-3 simulated processes executing defs.py (1-3 same-named "
@@ -971,7 +979,7 @@ class CacheConcEngine(CacheEngineBase):
         ev("defs.py := %s" % (spec,))
         # ---- concurrent phase
         nproc = 2 + ch.weighted("n-procs", [3, 1])
-        if focus == "colliding-writers" or ch.chance("colliding-identities", 1, 5):
+        if focus == "colliding-writers" or ch.chance("colliding-identities", 1, 4):
             # pid namespaces (containers sharing the directory) + a seeded random module: whatever the library
             # derives from pid and random (temporary file names) is the same in every process
             world.same_pid = world.same_random_seed = True
@@ -980,12 +988,16 @@ class CacheConcEngine(CacheEngineBase):
         world.crash_den = [0, 40, 15][ch.weighted("crash-rate", [1, 2, 2])] if world.max_deaths else 0
         if focus == "colliding-writers":
             world.max_deaths, world.crash_den = 1, 10
-        if focus == "colliding-writers" or ch.chance("edit-while-running", 1, 4):
+        if focus == "colliding-writers" or ch.chance("edit-while-running", 1, 3):
             # same class names as the text the running processes executed (bisturi looks the class up in the file
             # on disk through inspect while defining it; a class that vanished from the file is another matter)
             espec = [("Foo", SAME_SIZE[ch.draw("focus-c", 5)])] if focus else [(c, _draw_variant(ch, "mid")) for c, _ in spec]
             world.edit_plan = (1 + ch.draw("edit-at-step", 14), espec)
         procs = [world.spawn("c%d" % i, bytecode=ch.chance("bytecode-on", 1, 2)) for i in range(nproc)]
+        if not focus and ch.chance("fileless-modules", 1, 10):
+            for p in procs:
+                p.fileless = True
+            st["probe:fileless-module"] += 1
         for p in procs:
             p.program = (lambda pr: world.define_run(pr, "defs"))
         world.concurrent = True
